@@ -259,6 +259,7 @@ def cli_main():
         if status != STATUS_OK:
             print('error erasing page:')
             print(STATUS_DESCRIPTION[status])
+            raise SystemExit('erase failed at 0x{:08x} with DFU status {}'.format(addr, status))
 
     print()
 
@@ -290,6 +291,7 @@ def cli_main():
         if status != STATUS_OK:
             print('error writing page:')
             print(STATUS_DESCRIPTION[status])
+            raise SystemExit('write failed at 0x{:08x} with DFU status {}'.format(addr, status))
 
     print()
     print('done!')
